@@ -1,7 +1,8 @@
 (* Property C11: migration conserves the population (serial archipelago); evolve(n) advances the age by n.
-   The parallel migration phase belongs to the C12 transition system. *)
+   Parallel case: the pairing every rank derives from the broadcast shuffle (theorem 4); the exchange itself (sendrecv between
+   partners) runs on the C12 stand-in and is checked there and by this property's oracle. *)
 From Coq Require Import List Bool Arith Permutation.
-From Bingo Require Import Model.Migration Proofs.MigrationProofs.
+From Bingo Require Import Model.Migration Model.ParPartner Model.ParMigrate Proofs.MigrationProofs Proofs.ParPartnerProofs Proofs.ParMigrateProofs.
 Import ListNotations.
 
 (* 1. the shuffled index list read pairwise is a matching: every island occurs exactly once, either in
@@ -37,6 +38,63 @@ Theorem C11_evolve_advances_age_by_n :
 Proof. exact evolve_age. Qed.
 Print Assumptions C11_evolve_advances_age_by_n.
 
+(* 4. the parallel archipelago: every rank computes its partner from its own position in the broadcast shuffle.  For every
+      legal shuffle of n ranks the answers fit together: every rank gets an answer; a partner is another rank whose own answer is
+      the first rank (a matching - nobody waits for a message that is never sent); a rank without a partner exists only for odd
+      n, is unique, and is the island the serial archipelago would let sit out *)
+Theorem C11_parallel_partners_form_a_matching :
+  forall order n, is_perm order n = true ->
+  (forall r, r < n -> exists p, partner order r = Some p) /\
+  (forall r q, partner order r = Some (Some q) -> q < n /\ q <> r /\ partner order q = Some (Some r)) /\
+  (forall r, partner order r = Some None -> Nat.odd n = true /\ sit_out order = [r]) /\
+  (forall r1 r2, partner order r1 = Some None -> partner order r2 = Some None -> r1 = r2).
+Proof.
+  intros order n H. split; [intros r; apply (partner_defined order n H)|]. split; [intros r q; apply (partner_symmetric order n H)|].
+  split; [|intros r1 r2; apply (partner_none_unique order n H)].
+  intros r Hr. split; [apply (partner_none order n H r Hr)|apply (partner_none_sit_out order n H r Hr)].
+Qed.
+Print Assumptions C11_parallel_partners_form_a_matching.
+
+(* 5. the parallel migration phase as a transition system over n ranks (Model/ParMigrate.v: one transition = a rank's partner lookup,
+      dump and buffered send, or its receive), for EVERY interleaving (any list of ranks as schedule), every legal shuffle and every
+      outcome of the ranks' own dumps: no reachable state is stuck; once every rank has finished, no migration message is left
+      and every rank holds what the pairing prescribes (what it kept plus what its partner handed out, all marked for
+      re-evaluation; its old population if it sat out) *)
+Theorem C11_parallel_migration_completes_under_every_interleaving :
+  forall order n dumps pops0 sched, is_perm order n = true -> length dumps = n -> length pops0 = n ->
+  let s := mrun order dumps sched (minit pops0) in
+  (mfinal s = true \/ exists r, r < n /\ mstep order dumps s r <> None) /\
+  (mfinal s = true ->
+     (forall r, r < n -> nth r (mpops s) [] = final_pop order dumps pops0 r) /\ (forall r, r < n -> nth r (mmail s) None = None)).
+Proof.
+  intros order n dumps pops0 sched H Ld Lp s.
+  assert (I : MInv order n dumps pops0 s) by (apply (mrun_inv order n dumps pops0 H Ld Lp); apply minit_inv; assumption).
+  split; [apply (m_deadlock_free order n dumps pops0 H s I)|apply (m_final_state order n dumps pops0 H Ld Lp s I)].
+Qed.
+Print Assumptions C11_parallel_migration_completes_under_every_interleaving.
+
+(* 6. ... and that final layout conserves the individuals: when every dump splits its rank's population (hands out some, keeps the
+      rest), the multiset of identities over all ranks is unchanged; participants are all marked for re-evaluation, the rank that
+      sits out keeps its population untouched, equally sized islands keep their size *)
+Theorem C11_parallel_migration_conserves_population :
+  forall order n dumps pops0, is_perm order n = true -> length dumps = n -> length pops0 = n ->
+  (forall r, r < n -> Permutation (map fst (fst (nth r dumps ([], [])) ++ snd (nth r dumps ([], [])))) (map fst (nth r pops0 []))) ->
+  Permutation (ids (map (final_pop order dumps pops0) (seq 0 n))) (ids pops0) /\
+  (forall r q, partner order r = Some (Some q) -> Forall (fun p => snd p = false) (final_pop order dumps pops0 r)) /\
+  (forall r, partner order r = Some None -> final_pop order dumps pops0 r = nth r pops0 []) /\
+  (forall m, (forall r, r < n -> length (nth r pops0 []) = m) ->
+             (forall r, r < n -> length (fst (nth r dumps ([], []))) = half_round m /\ length (snd (nth r dumps ([], []))) = m - half_round m) ->
+             half_round m <= m -> forall r, r < n -> length (final_pop order dumps pops0 r) = m).
+Proof.
+  intros order n dumps pops0 H Ld Lp DV. split; [apply (m_conserves order n dumps pops0 H Ld Lp DV)|]. split; [apply final_pop_flags|].
+  split; [apply final_pop_idle|]. intros m. apply (final_pop_size order n dumps pops0 H Ld Lp).
+Qed.
+Print Assumptions C11_parallel_migration_conserves_population.
+
+Example C11_parallel_example :
+  map (partner [3; 0; 4; 1; 2]) [0; 1; 2; 3; 4] = [Some (Some 3); Some (Some 4); Some None; Some (Some 0); Some (Some 1)].
+Proof. reflexivity. Qed.
+
 From Coq Require Import ZArith QArith.
 From Bingo Require Import Gen.Consts.
 (* the modelled half_round is int(round(fraction * len)) for the fraction the code passes *)
@@ -49,3 +107,12 @@ Example C11_example_run :
           [[2;0;1]; [1;2;0]; [0;2;1]]
   = Ok [[(1,false);(7,false);(8,false)]; [(3,true);(4,false);(5,true)]; [(6,false);(0,false);(2,false)]].
 Proof. vm_compute. reflexivity. Qed.
+
+(* non-vacuity: three ranks, shuffle 2 0 1 (ranks 2 and 0 exchange, rank 1 sits out), rank 1 scheduled first and rank 0's receive
+   attempted before rank 2 has sent *)
+Example C11_parallel_run :
+  let pops := [[(0, true); (1, true)]; [(2, true); (3, false)]; [(4, true); (5, true)]] in
+  let dumps := [([(1, true)], [(0, true)]); ([], []); ([(4, true)], [(5, true)])] in
+  let s := mrun [2; 0; 1] dumps [1; 0; 0; 2; 2; 0; 1] (minit pops) in
+  mfinal s = true /\ mpops s = [[(0, false); (4, false)]; [(2, true); (3, false)]; [(5, false); (1, false)]].
+Proof. vm_compute. split; reflexivity. Qed.
